@@ -101,21 +101,21 @@ vp_arc_make_mut(
 //@@ contract
         ensures **final(self) == (BaseSettings { allow_compression: allow_compression, ..**old(self) }), // id: only_this_field_of_this_copy_changes [C16]
 //@@ end
-//@@ macrofn src/request/settings.rs basic_setter set_accept_invalid_certs props=C16
+//@@ macrofn src/request/settings.rs basic_setter set_accept_invalid_certs props=C16,C14
 //@@ rw R1
 Arc::make_mut(
 //@@ =>
 vp_arc_make_mut(
 //@@ contract
-        ensures **final(self) == (BaseSettings { accept_invalid_certs: accept_invalid_certs, ..**old(self) }), // id: only_this_field_of_this_copy_changes [C16]
+        ensures **final(self) == (BaseSettings { accept_invalid_certs: accept_invalid_certs, ..**old(self) }), // id: only_this_field_of_this_copy_changes [C16,C14]
 //@@ end
-//@@ macrofn src/request/settings.rs basic_setter set_accept_invalid_hostnames props=C16
+//@@ macrofn src/request/settings.rs basic_setter set_accept_invalid_hostnames props=C16,C14
 //@@ rw R1
 Arc::make_mut(
 //@@ =>
 vp_arc_make_mut(
 //@@ contract
-        ensures **final(self) == (BaseSettings { accept_invalid_hostnames: accept_invalid_hostnames, ..**old(self) }), // id: only_this_field_of_this_copy_changes [C16]
+        ensures **final(self) == (BaseSettings { accept_invalid_hostnames: accept_invalid_hostnames, ..**old(self) }), // id: only_this_field_of_this_copy_changes [C16,C14]
 //@@ end
 }
 
@@ -160,13 +160,13 @@ impl Session {
 //@@ contract
         ensures final(self)@ == (BaseSettings { allow_compression: allow_compression, ..old(self)@ }), // id: session_setter_changes_only_its_field [C16]
 //@@ end
-//@@ fn src/request/session.rs impl~Session danger_accept_invalid_certs props=C16
+//@@ fn src/request/session.rs impl~Session danger_accept_invalid_certs props=C16,C14
 //@@ contract
-        ensures final(self)@ == (BaseSettings { accept_invalid_certs: accept_invalid_certs, ..old(self)@ }), // id: session_setter_changes_only_its_field [C16]
+        ensures final(self)@ == (BaseSettings { accept_invalid_certs: accept_invalid_certs, ..old(self)@ }), // id: session_setter_changes_only_its_field [C16,C14]
 //@@ end
-//@@ fn src/request/session.rs impl~Session danger_accept_invalid_hostnames props=C16
+//@@ fn src/request/session.rs impl~Session danger_accept_invalid_hostnames props=C16,C14
 //@@ contract
-        ensures final(self)@ == (BaseSettings { accept_invalid_hostnames: accept_invalid_hostnames, ..old(self)@ }), // id: session_setter_changes_only_its_field [C16]
+        ensures final(self)@ == (BaseSettings { accept_invalid_hostnames: accept_invalid_hostnames, ..old(self)@ }), // id: session_setter_changes_only_its_field [C16,C14]
 //@@ end
 }
 
@@ -236,16 +236,16 @@ impl<B> RequestBuilder<B> {
             res.sp_settings() == (BaseSettings { allow_compression: allow_compression, ..self.sp_settings() }), // id: request_setter_overrides_only_its_field_on_this_request [C16]
             res.sp_headers() == self.sp_headers(), res.sp_url() == self.sp_url(), res.sp_method() == self.sp_method(), res.sp_body() == self.sp_body(),
 //@@ end
-//@@ fn src/request/builder.rs impl<B>~RequestBuilder<B> danger_accept_invalid_certs props=C16
+//@@ fn src/request/builder.rs impl<B>~RequestBuilder<B> danger_accept_invalid_certs props=C16,C14
 //@@ contract
         ensures
-            res.sp_settings() == (BaseSettings { accept_invalid_certs: accept_invalid_certs, ..self.sp_settings() }), // id: request_setter_overrides_only_its_field_on_this_request [C16]
+            res.sp_settings() == (BaseSettings { accept_invalid_certs: accept_invalid_certs, ..self.sp_settings() }), // id: request_setter_overrides_only_its_field_on_this_request [C16,C14]
             res.sp_headers() == self.sp_headers(), res.sp_url() == self.sp_url(), res.sp_method() == self.sp_method(), res.sp_body() == self.sp_body(),
 //@@ end
-//@@ fn src/request/builder.rs impl<B>~RequestBuilder<B> danger_accept_invalid_hostnames props=C16
+//@@ fn src/request/builder.rs impl<B>~RequestBuilder<B> danger_accept_invalid_hostnames props=C16,C14
 //@@ contract
         ensures
-            res.sp_settings() == (BaseSettings { accept_invalid_hostnames: accept_invalid_hostnames, ..self.sp_settings() }), // id: request_setter_overrides_only_its_field_on_this_request [C16]
+            res.sp_settings() == (BaseSettings { accept_invalid_hostnames: accept_invalid_hostnames, ..self.sp_settings() }), // id: request_setter_overrides_only_its_field_on_this_request [C16,C14]
             res.sp_headers() == self.sp_headers(), res.sp_url() == self.sp_url(), res.sp_method() == self.sp_method(), res.sp_body() == self.sp_body(),
 //@@ end
 }
